@@ -1,6 +1,6 @@
 """C19 — JSON.parse / JSON.stringify (structural clauses)."""
 
-from ..rules import builtins, exceptions, recursion
+from ..rules import builtins, exceptions, recursion, operators
 
 
 def run(ctx, rep):
@@ -16,4 +16,5 @@ def run(ctx, rep):
     recursion.rule_guard_state_is_per_call(ctx, rep, "C19-R4b", cluster)
     recursion.rule_guard_passed_along(ctx, rep, "C19-R4c", only_pred=in_json)
     builtins.rule_json_omission(ctx, rep, "C19-R5")
+    operators.rule_key_not_truth_tested(ctx, rep, "C19-R6", only=lambda q: "_create_json_object" in q or "_json" in q)
     rep.undecided += ["parse(stringify(v)) structurally equal to v for all values, canonical form of stringify(parse(t)) (round-trip properties)"]
